@@ -13,53 +13,115 @@ theorem accepted_append (a b : List (Ev × Bool)) : accepted (a ++ b) = accepted
   simp [accepted]
 
 theorem esStep_log (fs : List Filter) (cap : Nat) (s : ES) (a : Act) :
-    (esStep fs cap s a).log.map (·.1) = s.log.map (·.1) ++ (arrivals [a]).filter (wanted fs) := by
+    (esStep fs cap s a).log.map (·.1) =
+      s.log.map (·.1) ++ (if s.stopped then [] else (liveArrivals [a]).filter (wanted fs)) := by
   cases a with
   | arrive e =>
-    simp only [esStep, arrivals]
-    by_cases hw : wanted fs e = true
-    · by_cases hc : s.buf.length < cap <;> simp [hw, hc]
-    · simp [hw]
+    simp only [esStep, liveArrivals]
+    by_cases hs : s.stopped = true
+    · simp [hs]
+    · by_cases hw : wanted fs e = true
+      · by_cases hc : s.buf.length < cap <;> simp [hs, hw, hc]
+      · simp [hs, hw]
   | consume =>
-    simp only [esStep, arrivals]
-    cases s.buf <;> simp
+    simp only [esStep, liveArrivals]
+    by_cases hd : s.dead = true
+    · simp [hd]
+    · cases s.buf <;> simp [hd]
+  | consumeFail =>
+    simp only [esStep, liveArrivals]
+    by_cases hd : s.dead = true
+    · simp [hd]
+    · cases s.buf <;> simp [hd]
+  | stop => simp [esStep, liveArrivals]
 
-theorem arrivals_append (a b : List Act) : arrivals (a ++ b) = arrivals a ++ arrivals b := by
-  induction a with
-  | nil => simp [arrivals]
-  | cons x a ih => cases x <;> simp [arrivals, ih]
+theorem esStep_stopped (fs : List Filter) (cap : Nat) (s : ES) (a : Act) :
+    (esStep fs cap s a).stopped = (s.stopped || a == .stop) := by
+  cases a with
+  | arrive e =>
+    simp only [esStep]
+    by_cases hs : s.stopped = true
+    · simp [hs]
+    · by_cases hw : wanted fs e = true
+      · by_cases hc : s.buf.length < cap <;> simp [hs, hw, hc]
+      · simp [hs, hw]
+  | consume =>
+    simp only [esStep]
+    by_cases hd : s.dead = true
+    · simp [hd]
+    · cases s.buf <;> simp [hd]
+  | consumeFail =>
+    simp only [esStep]
+    by_cases hd : s.dead = true
+    · simp [hd]
+    · cases s.buf <;> simp [hd]
+  | stop => simp [esStep]
 
 theorem es_log (fs : List Filter) (cap : Nat) (sched : List Act) (s : ES) :
-    (sched.foldl (esStep fs cap) s).log.map (·.1) = s.log.map (·.1) ++ (arrivals sched).filter (wanted fs) := by
+    (sched.foldl (esStep fs cap) s).log.map (·.1) =
+      s.log.map (·.1) ++ (if s.stopped then [] else (liveArrivals sched).filter (wanted fs)) := by
   induction sched generalizing s with
-  | nil => simp [arrivals]
+  | nil => simp [liveArrivals]
   | cons a r ih =>
-    have : arrivals (a :: r) = arrivals [a] ++ arrivals r := arrivals_append [a] r
-    rw [List.foldl_cons, ih, esStep_log, this, List.filter_append, List.append_assoc]
+    rw [List.foldl_cons, ih, esStep_log, esStep_stopped]
+    by_cases hs : s.stopped = true
+    · simp [hs]
+    · cases a with
+      | arrive e => simp [hs, liveArrivals, List.filter_cons]; split <;> simp
+      | consume => simp [hs, liveArrivals]
+      | consumeFail => simp [hs, liveArrivals]
+      | stop => simp [hs, liveArrivals]
 
-theorem esStep_acc (fs : List Filter) (cap : Nat) (s : ES) (a : Act)
-    (h : s.sent ++ s.buf = accepted s.log) :
-    (esStep fs cap s a).sent ++ (esStep fs cap s a).buf = accepted (esStep fs cap s a).log := by
+/-- accounting invariant: sent, the one event lost to a failed send, and the buffer are exactly
+the accepted arrivals, in order; nothing is lost while the goroutine lives -/
+def AccInv (s : ES) : Prop := s.sent ++ s.lost ++ s.buf = accepted s.log ∧ (s.dead = false → s.lost = [])
+
+theorem esStep_acc (fs : List Filter) (cap : Nat) (s : ES) (a : Act) (h : AccInv s) :
+    AccInv (esStep fs cap s a) := by
+  obtain ⟨h, hl⟩ := h
+  have h' : s.sent ++ s.lost ++ s.buf = List.map (fun x => x.fst) (List.filter (fun x => x.snd) s.log) := h
   cases a with
   | arrive e =>
     simp only [esStep]
-    by_cases hw : wanted fs e = true
-    · by_cases hc : s.buf.length < cap
-      · have h' : s.sent ++ s.buf = List.map (fun x => x.fst) (List.filter (fun x => x.snd) s.log) := h
-        simp [hw, hc, accepted, ← h', List.append_assoc]
-      · have h' : s.sent ++ s.buf = List.map (fun x => x.fst) (List.filter (fun x => x.snd) s.log) := h
-        simp [hw, hc, accepted, ← h']
-    · simp [hw, h]
+    by_cases hs : s.stopped = true
+    · simp [hs]; exact ⟨h, hl⟩
+    · by_cases hw : wanted fs e = true
+      · by_cases hc : s.buf.length < cap
+        · simp [hs, hw, hc]
+          exact ⟨by simp [accepted, ← h', List.append_assoc], hl⟩
+        · simp [hs, hw, hc]
+          exact ⟨by simp [accepted, ← h'], hl⟩
+      · simp [hs, hw]; exact ⟨h, hl⟩
   | consume =>
     simp only [esStep]
-    cases hb : s.buf with
-    | nil => simp [← h, hb]
-    | cons e r => simp [← h, hb]
+    by_cases hd : s.dead = true
+    · simp [hd]; exact ⟨h, hl⟩
+    · simp at hd
+      have hl0 := hl hd
+      cases hb : s.buf with
+      | nil => simp [hd]; exact ⟨by simpa [hb] using h, hl⟩
+      | cons e r =>
+        simp [hd]
+        refine ⟨?_, fun _ => hl0⟩
+        show s.sent ++ [e] ++ s.lost ++ r = accepted s.log
+        rw [← h, hb, hl0]; simp
+  | consumeFail =>
+    simp only [esStep]
+    by_cases hd : s.dead = true
+    · simp [hd]; exact ⟨h, hl⟩
+    · simp at hd
+      have hl0 := hl hd
+      cases hb : s.buf with
+      | nil => simp [hd]; exact ⟨by simpa [hb] using h, hl⟩
+      | cons e r =>
+        simp [hd]
+        refine ⟨?_, fun hh => by simp at hh⟩
+        show s.sent ++ [e] ++ r = accepted s.log
+        rw [← h, hb, hl0]; simp
+  | stop => exact ⟨h, hl⟩
 
-theorem es_acc (fs : List Filter) (cap : Nat) (sched : List Act) (s : ES)
-    (h : s.sent ++ s.buf = accepted s.log) :
-    (sched.foldl (esStep fs cap) s).sent ++ (sched.foldl (esStep fs cap) s).buf
-      = accepted (sched.foldl (esStep fs cap) s).log := by
+theorem es_acc (fs : List Filter) (cap : Nat) (sched : List Act) (s : ES) (h : AccInv s) :
+    AccInv (sched.foldl (esStep fs cap) s) := by
   induction sched generalizing s with
   | nil => simpa using h
   | cons a r ih => rw [List.foldl_cons]; exact ih _ (esStep_acc fs cap s a h)
@@ -69,16 +131,28 @@ theorem esStep_cap (fs : List Filter) (cap : Nat) (s : ES) (a : Act) (h : s.buf.
   cases a with
   | arrive e =>
     simp only [esStep]
-    by_cases hw : wanted fs e = true
-    · by_cases hc : s.buf.length < cap
-      · simp [hw, hc]; omega
-      · simp [hw, hc]; exact h
-    · simp [hw]; exact h
+    by_cases hs : s.stopped = true
+    · simp [hs]; exact h
+    · by_cases hw : wanted fs e = true
+      · by_cases hc : s.buf.length < cap
+        · simp [hs, hw, hc]; omega
+        · simp [hs, hw, hc]; exact h
+      · simp [hs, hw]; exact h
   | consume =>
     simp only [esStep]
-    cases hb : s.buf with
-    | nil => simp; exact h
-    | cons e r => simp [hb] at h ⊢; omega
+    by_cases hd : s.dead = true
+    · simp [hd]; exact h
+    · cases hb : s.buf with
+      | nil => simp [hd]; exact h
+      | cons e r => simp [hb] at h; simp [hd]; omega
+  | consumeFail =>
+    simp only [esStep]
+    by_cases hd : s.dead = true
+    · simp [hd]; exact h
+    · cases hb : s.buf with
+      | nil => simp [hd]; exact h
+      | cons e r => simp [hb] at h; simp [hd]; omega
+  | stop => simpa [esStep] using h
 
 theorem es_cap (fs : List Filter) (cap : Nat) (sched : List Act) (s : ES) (h : s.buf.length ≤ cap) :
     (sched.foldl (esStep fs cap) s).buf.length ≤ cap := by
@@ -86,7 +160,31 @@ theorem es_cap (fs : List Filter) (cap : Nat) (sched : List Act) (s : ES) (h : s
   | nil => simpa using h
   | cons a r ih => rw [List.foldl_cons]; exact ih _ (esStep_cap fs cap s a h)
 
-theorem es_drain (fs : List Filter) (cap : Nat) (n : Nat) (s : ES) (h : s.buf.length ≤ n) :
+/-- a stopped stream: nothing enters the buffer or the log any more, whatever is dispatched -/
+theorem es_after_stop (fs : List Filter) (cap : Nat) (sched : List Act) (s : ES) (hs : s.stopped = true) :
+    (sched.foldl (esStep fs cap) s).log = s.log ∧ (sched.foldl (esStep fs cap) s).stopped = true := by
+  induction sched generalizing s with
+  | nil => simp [hs]
+  | cons a r ih =>
+    rw [List.foldl_cons]
+    have hstep : (esStep fs cap s a).log = s.log ∧ (esStep fs cap s a).stopped = true := by
+      cases a with
+      | arrive e => simp [esStep, hs]
+      | consume =>
+        simp only [esStep]
+        by_cases hd : s.dead = true
+        · simp [hd, hs]
+        · cases hb : s.buf <;> simp [hd, hs]
+      | consumeFail =>
+        simp only [esStep]
+        by_cases hd : s.dead = true
+        · simp [hd, hs]
+        · cases hb : s.buf <;> simp [hd, hs]
+      | stop => simp [esStep]
+    obtain ⟨h1, h3⟩ := ih _ hstep.2
+    exact ⟨by rw [h1, hstep.1], h3⟩
+
+theorem es_drain (fs : List Filter) (cap : Nat) (n : Nat) (s : ES) (h : s.buf.length ≤ n) (hd : s.dead = false) :
     ((List.replicate n Act.consume).foldl (esStep fs cap) s).buf = [] ∧
     ((List.replicate n Act.consume).foldl (esStep fs cap) s).sent = s.sent ++ s.buf ∧
     ((List.replicate n Act.consume).foldl (esStep fs cap) s).log = s.log := by
@@ -98,14 +196,14 @@ theorem es_drain (fs : List Filter) (cap : Nat) (n : Nat) (s : ES) (h : s.buf.le
     rw [List.replicate_succ, List.foldl_cons]
     cases hb : s.buf with
     | nil =>
-      have hs : esStep fs cap s .consume = s := by simp [esStep, hb]
+      have hs : esStep fs cap s .consume = s := by simp [esStep, hb, hd]
       rw [hs]
-      have := ih s (by simp [hb])
+      have := ih s (by simp [hb]) hd
       simpa [hb] using this
     | cons e r =>
-      have hs : esStep fs cap s .consume = { s with buf := r, sent := s.sent ++ [e] } := by simp [esStep, hb]
+      have hs : esStep fs cap s .consume = { s with buf := r, sent := s.sent ++ [e] } := by simp [esStep, hb, hd]
       rw [hs]
-      have := ih { s with buf := r, sent := s.sent ++ [e] } (by simp [hb] at h; simpa using by omega)
+      have := ih { s with buf := r, sent := s.sent ++ [e] } (by simp [hb] at h; simpa using by omega) hd
       simpa using this
 
 /-! ## query stream -/
